@@ -404,7 +404,10 @@ pub fn run(plan: &Plan, b: &BuilderPlan) -> FamOut {
         if sim().poisoned.is_some() {
             return FamOut { nontrivial };
         }
+        // both outputs merged is refused by Popen::create (C05's business), not by the builder
+        let both_merged = m.stdout == RKind::Merge && m.stderr == RKind::Merge;
         match (r, &m.refused) {
+            (Ok(()), None) if both_merged => {}
             (Ok(()), None) => judge_exec(plan, &m, idx, "original"),
             (Err(pm), None) => violate("panic_model_mismatch", format!("panic_model_mismatch/refused/term={:?}", b_term), format!("terminator {:?} panicked ({}); the model accepts it", b_term, pm)),
             (Ok(()), Some(why)) => violate("panic_model_mismatch", format!("panic_model_mismatch/accepted/term={:?}", b_term), format!("terminator {:?} went through; the model says it must be refused: {}", b_term, why)),
@@ -443,7 +446,9 @@ pub fn run(plan: &Plan, b: &BuilderPlan) -> FamOut {
             let t = if cm.has_data { BTerm::Capture } else { BTerm::Popen };
             apply_term(&mut cm, t);
             let idx = sim().k.n_spawned;
+            let both_merged = cm.stdout == RKind::Merge && cm.stderr == RKind::Merge;
             match (do_term(cex, t), &cm.refused) {
+                (Ok(()), None) if both_merged => {}
                 (Ok(()), None) => judge_exec(plan, &cm, idx, "clone"),
                 (Err(pm), None) => violate("panic_model_mismatch", "panic_model_mismatch/refused/clone_term".into(), format!("clone: terminator panicked ({})", pm)),
                 _ => {}
